@@ -56,6 +56,8 @@ def gen_routing(tier, wd, seed):
         # polygons, ladders and kites, mostly massless, with sparse reference flows (two or three external vertices anywhere on the
         # graph) and permuted edge lists: disconnected but momentum-spanning subsets whose first-listed component carries no external
         runs.append(dict(base, MODE='"cat"', EMIN=4, EMAX=7, LMIN=1, LMAX=3, NSAMP=40, WSET={4, 5, 6, 8}, DSET={1, 2, 3, 4}, MSET={0, 0, 0, 1}))
+        # chains of bubbles and ladders with 8 edges: four loops whose L matrix is sparse
+        runs.append(dict(base, MODE='"cat"', EMIN=8, EMAX=8, LMIN=3, LMAX=4, NSAMP=30, WSET={3, 4, 5, 6}, DSET={3, 4, 5, 6}, MSET={0, 1, 1, 2}))
     else:
         runs.append(dict(base, V=2, EMAX=4, NSAMP=40))
         runs.append(dict(base, EMIN=2, EMAX=3, NSAMP=20))
@@ -64,6 +66,7 @@ def gen_routing(tier, wd, seed):
         runs.append(dict(base, MODE='"cat"', EMIN=1, EMAX=7, LMAX=5, NSAMP=400, WSET={4, 5, 6, 8, 10}))
         runs.append(dict(base, MODE='"rand"', V=5, EMIN=5, EMAX=7, LMAX=5, NSK=600, NSAMP=12, WSET={5, 6, 8, 10}, PK=1))
         runs.append(dict(base, MODE='"cat"', EMIN=4, EMAX=7, LMIN=1, LMAX=3, NSAMP=400, WSET={4, 5, 6, 8}, DSET={1, 2, 3, 4}, MSET={0, 0, 0, 1}))
+        runs.append(dict(base, MODE='"cat"', EMIN=8, EMAX=8, LMIN=3, LMAX=4, NSAMP=300, WSET={3, 4, 5, 6}, DSET={3, 4, 5, 6}, MSET={0, 1, 1, 2}))
         runs.append(dict(base, MODE='"cat"', EMIN=5, EMAX=7, LMIN=4, LMAX=5, NSAMP=3000, WSET={5, 6, 7, 8, 9, 10, 11, 12}, DSET={1, 2, 3, 4, 5, 6}, MSET={0, 1, 1, 2}))
     st = 0
     for i, c in enumerate(runs):
